@@ -1133,6 +1133,8 @@ class Interp:
                 return model(self, *args, **kwargs)
             inline = caller is not None and caller.inlines(q)
             contract = self.registry.contracts.get(q)
+            if contract is not None and not contract.usable_at_calls():
+                contract = None
             if contract is not None and not inline:
                 return self.registry.apply_contract(self, contract, f, args, kwargs)
             if not inline and not (caller is not None and caller.inline_all):
